@@ -164,6 +164,7 @@ class RModel:
         self.spaces = {}
         self.refs = {}                  # model-level references: name -> value
         self.allow_none = False
+        self.doc = None
         self.inputs = {}                # (sid, cellsname) -> {key: value}
         self.armed = {}                 # fault tag -> exception kind name
         self.maxdepth = None
